@@ -180,8 +180,10 @@ func (r *Run) NFailing() int {
 }
 
 // flush re-runs every representative 5 times and hands the confirmed
-// violations to the report; a case that does not fail 5 times out of 5 is an
-// engine error, never a violation.
+// violations to the report; a case that the enumeration saw failing but that
+// does not fail 5 times out of 5 when re-run alone depends on what the code
+// under test was given before: it is reported as an order-dependent violation
+// (report.Checker.Unstable), not as an engine error.
 func (r *Run) flush() {
 	r.mu.Lock()
 	cands := map[string]*candidate{}
@@ -205,7 +207,7 @@ func (r *Run) flush() {
 		if c.again != nil {
 			for i := 0; i < 5; i++ {
 				if !c.again() {
-					r.Chk.EngineError("violation %s did not reproduce on re-run %d/5: %s", fp, i+1, c.what)
+					r.Chk.Unstable(fp, fmt.Sprintf("%s [re-run %d of 5 of the case alone did not fail]", c.what, i+1), c.replay)
 					ok = false
 					break
 				}
